@@ -162,7 +162,8 @@ class ArrayConstraintBuilder(ConstraintOverrideVisitor):
     def visit_field_scalar_array(self, f:FieldArrayModel):
         if self.phase == 0:
             # TODO: this logic is for rand-sized array fields
-            if f.is_rand_sz:
+            # (a list that is not random in this call keeps its size)
+            if f.is_rand_sz and f.size.is_used_rand:
                 size_bound = self.bound_m[f.size]
                 range_l = size_bound.domain.range_l
                 if len(range_l) == 0:
